@@ -5,7 +5,7 @@
    cs_lookup / ps_lookup replay the writes (setdefault / assignment) exactly as the dictionaries do. *)
 From Coq Require Import List NArith Bool.
 Import ListNotations.
-From PyccoloV Require Import model.Book proofs.BookProofs.
+From PyccoloV Require Import model.Book proofs.BookProofs proofs.BookExact.
 From PyccoloV Require Import gen.BookOrder model.BookHist proofs.BookHistProofs.
 
 (* the containing statement really contains the node: it is a statement of the tree and the node lies in its sub-tree *)
@@ -28,6 +28,24 @@ Theorem C18_tables : forall n cur w k s, wf n -> In w (visit cur n) -> cs_write 
   (cur = Some s /\ exists K, In K (nodes n) /\ nid K = k) \/ contains n s k.
 Proof. exact cs_writes_ok. Qed.
 Print Assumptions C18_tables.
+
+(* EXACTNESS ("its parent statement and outer-statement classification agree with the lexical structure"): `lexp` is the lexical
+   definition - the nearest proper ancestor that is a statement, by one recursive descent that remembers the last statement passed.
+   For every tree in which statements only sit in list fields and node ids are distinct, and for every statement of it (the root
+   included): the table's entry IS the lexical parent statement, and there is no entry exactly when no statement encloses it. *)
+Theorem C18_parent_exact : forall t, wf t -> NoDup (ids t) -> forall K, In K (nodes t) -> nstmt K = true ->
+  ps_lookup (visit None t) (nid K) None = joinp (lexp None t (nid K)).
+Proof. exact ps_lookup_exact. Qed.
+Print Assumptions C18_parent_exact.
+
+(* stmt_only_has_ancestor_types (is_outer_stmt, is_initial_frame_stmt): walking up the parent-statement TABLE while the types are allowed
+   gives the answer that walking up the LEXICAL parents gives, for every assignment of types to nodes, every set of allowed types, every
+   statement and every number of steps *)
+Theorem C18_outer_exact : forall (ty : N -> N) (allowed : N -> bool) t, wf t -> NoDup (ids t) ->
+  forall K, In K (nodes t) -> nstmt K = true -> forall fuel,
+  only_allowed_tbl ty allowed t (nid K) fuel = only_allowed_lex ty allowed t (nid K) fuel.
+Proof. exact outer_exact. Qed.
+Print Assumptions C18_outer_exact.
 
 (* histories of instrumentations (exec, decorator, import; the same path again; other paths): model/BookHist.v.  gen/BookOrder.v
    is REGENERATED from AstRewriter.visit on every run and says in which order the old bookkeeper of a path is removed and the new
@@ -78,3 +96,7 @@ Example C18_nonvacuous :
   ps_lookup (visit None ex_tree) 12 None = Some 8 /\      (* the statement in the except body has the try as parent *)
   ps_lookup (visit None ex_tree) 1 None = None.           (* module-level statements have no parent statement *)
 Proof. split; [cbn; repeat split; auto; discriminate|]. vm_compute. repeat split; reflexivity. Qed.
+Example C18_exact_nonvacuous :
+  NoDup (ids ex_tree) /\ joinp (lexp None ex_tree 12) = Some 8 /\ joinp (lexp None ex_tree 1) = None /\
+  only_allowed_lex (fun _ => 0) (fun _ => true) ex_tree 12 5 = true /\ only_allowed_lex (fun _ => 0) (fun _ => false) ex_tree 12 5 = false.
+Proof. split; [repeat constructor; cbn; intuition discriminate|]. vm_compute. repeat split; reflexivity. Qed.
